@@ -128,7 +128,8 @@ def _solve_group(args):
     except Exception:
       out.append(Result(oid=ob.oid, status="crash", reason=traceback.format_exc()[-2000:], group=gname))
       continue
-    if r["status"] == "unknown" and ob.meta.get("sat_hints"):
+    if (r["status"] == "unknown" or (r["status"] == "sat" and r.get("_model_obj") is None and ob.meta.get("replay") is not None)) and ob.meta.get("sat_hints") and ob.expect != "refutable":
+      # (also when a back end that returns no model object said `sat`: a model is needed for the native replay)
       # counter-model search under extra constraints: a model of (query and hint) is a model of the query
       for hint in ob.meta["sat_hints"]:
         try:
